@@ -1,6 +1,9 @@
 // C09: drive a real BufferedStream with an operation list.  Case: N len bytes... ops...
 #include "common.h"
 #include <potassco/match_basic_types.h>
+// line() is an unsigned counter; the model's is an integer. They are compared modulo 2^32 through the signed representative, so a
+// put-back of '\n' that the client never extracted (outside the specified use; it can take the counter below 0) reads -1 on both sides.
+static long long lineNo(const Potassco::BufferedStream& s) { return static_cast<long long>(static_cast<int>(s.line())); }
 int main() {
 	Case c; Obs o;
 	while (readCase(c)) {
@@ -32,11 +35,11 @@ int main() {
 				o.add(r);
 				if (r > 0) o.addBytes(buf.data() + 8, (size_t)r);
 			}
-			else if (op == 7) { o.add(str.line()); }
+			else if (op == 7) { o.add(lineNo(str)); }
 			else if (op == 8) { o.add(str.end() ? 1 : 0); }
 			else break;
 		}
-		o.add(str.line()); o.add(str.end() ? 1 : 0); o.add(0);
+		o.add(lineNo(str)); o.add(str.end() ? 1 : 0); o.add(0);
 		o.flush();
 	}
 	return 0;
